@@ -37,7 +37,7 @@ char const *const id = "C19-conc";
 namespace
 {
 using namespace c19;
-constexpr unsigned MAX_FIBERS = 4;
+constexpr unsigned MAX_FIBERS = 6;
 constexpr unsigned PRELUDE = 9; // value of t for operations of the sequential prelude
 
 enum class Kind
@@ -77,7 +77,6 @@ struct LOp
   std::vector<unsigned> path;
   int arg;
   long result;
-  bool optional = false; // an interrupted set: it may have taken effect (atomically) or not at all
 };
 
 struct Lin
@@ -88,8 +87,15 @@ struct Lin
   std::set<std::pair<std::uint64_t, std::array<int, LOCS>>> dead;
   std::uint64_t nodes = 0;
 
-  static bool read_ok(LOp const &o, Model const &m)
+  // locations below an interrupted set (one that ended in an injected bad_alloc): the property
+  // says nothing about how much of such a call took effect, so reads of these locations and
+  // their final values are not judged
+  std::array<bool, LOCS> tainted{};
+
+  bool read_ok(LOp const &o, Model const &m) const
   {
+    if (tainted[index_of(o.path)])
+      return true;
     int const lv = m.get(o.path);
     if (o.kind == Kind::get || o.kind == Kind::level)
       return lv == o.result;
@@ -105,7 +111,14 @@ struct Lin
       return true; // search budget exhausted: no verdict from this history (never an alarm)
     std::uint64_t const all = ops.size() == 64 ? ~std::uint64_t{0} : ((std::uint64_t{1} << ops.size()) - 1);
     if (done == all)
-      return !check_final || m == final_state;
+    {
+      if (!check_final)
+        return true;
+      for (unsigned k = 0; k < LOCS; ++k)
+        if (!tainted[k] && m.level[k] != final_state.level[k])
+          return false;
+      return true;
+    }
     if (dead.count({done, m.level}) != 0)
       return false;
     std::uint64_t minret = ~std::uint64_t{0};
@@ -122,8 +135,6 @@ struct Lin
         Model n = m;
         n.set(o.path, o.arg);
         if (search(done | (std::uint64_t{1} << k), n))
-          return true;
-        if (o.optional && search(done | (std::uint64_t{1} << k), m))
           return true;
       }
       else if (read_ok(o, m))
@@ -353,6 +364,8 @@ struct World
     ctx.sched_out = res.choices;
     ctx.steps += res.steps;
     ctx.interleaving = res.interleaving_hash;
+    if (res.table_overflow)
+      sim::detail::fatal_violation("harness", "the scheduler's lock table overflowed: " + res.detail);
     if (res.deadlock || res.step_bound)
       sim::detail::fatal_violation(res.deadlock ? "deadlock" : "step-bound", res.detail);
     if (res.locks_held_at_end != 0)
@@ -378,13 +391,22 @@ struct World
 
     // ---- history checks
     std::vector<LOp> protected_ops, lockfree;
+    std::array<bool, LOCS> tainted{};
     auto collect = [&](FiberState const &f) {
       for (OpInfo const &i : f.info)
       {
         if (!i.executed)
           continue;
-        LOp o{i.inv, i.ret, i.kind, i.path, i.arg, i.result, i.failed};
-        if (i.kind == Kind::set || i.kind == Kind::get)
+        LOp o{i.inv, i.ret, i.kind, i.path, i.arg, i.result};
+        if (i.failed)
+        {
+          // an interrupted set: everything below its location is out of the judged universe
+          for (unsigned k = 0; k < LOCS; ++k)
+            if (is_prefix(i.path, path_of(k)))
+              tainted[k] = true;
+          ctx.probe("interrupted_set_locations_not_judged");
+        }
+        else if (i.kind == Kind::set || i.kind == Kind::get)
           protected_ops.push_back(o);
         else if (i.kind == Kind::level || i.kind == Kind::enabled)
           lockfree.push_back(o);
@@ -396,9 +418,14 @@ struct World
     for (LOp const &o : protected_ops)
       hist += describe(o) + " ";
     ctx.ev("history " + hist);
+    bool const judged = protected_ops.size() < 63; // the search keeps the done set in 64 bits
+    if (!judged)
+      ctx.probe("history_too_long_for_the_search");
+    if (judged)
     {
       Lin lin;
       lin.ops = protected_ops;
+      lin.tainted = tainted;
       lin.final_state = observed;
       lin.check_final = true;
       bool const ok = lin.search(0, Model(root));
@@ -408,7 +435,10 @@ struct World
     }
     for (LOp const &r : lockfree)
     {
+      if (!judged)
+        break;
       Lin lin;
+      lin.tainted = tainted;
       lin.ops = protected_ops;
       lin.ops.push_back(r);
       lin.final_state = observed;
@@ -488,7 +518,7 @@ void warmup()
 
 void generate(sim::Rng &rng, sim::Plan &p, bool)
 {
-  unsigned const nf = static_cast<unsigned>(rng.range(2, 4));
+  unsigned const nf = static_cast<unsigned>(rng.chance(1, 4) ? rng.range(5, MAX_FIBERS) : rng.range(2, 4));
   p.cfg.set("fibers", nf);
   p.cfg.set("root", static_cast<long>(rng.below(7)));
   p.cfg.set("policy", static_cast<long>(rng.below(3)));
@@ -552,7 +582,7 @@ void generate(sim::Rng &rng, sim::Plan &p, bool)
     p.ops.push_back(make_op(PRELUDE));
   for (unsigned t = 0; t < nf; ++t)
   {
-    unsigned const len = static_cast<unsigned>(rng.range(2, 6));
+    unsigned const len = static_cast<unsigned>(nf > 4 ? rng.range(1, 4) : rng.range(2, 6));
     for (unsigned k = 0; k < len; ++k)
     {
       sim::Op op = make_op(t);
